@@ -311,6 +311,13 @@ impl Ctx {
     fn record(&self, sub: &str, rep: &Report) {
         let mut st = self.st.lock().unwrap();
         st.evaluations += 1;
+        if let Ok(p) = std::env::var("RV_DUMP") {
+            // debugging aid: append every generated case (and what was observed) to a file
+            use std::io::Write;
+            if let Ok(mut f) = std::fs::OpenOptions::new().create(true).append(true).open(p) {
+                let _ = writeln!(f, ";;; {} {:?}\n{}\n;;=> {}\n", sub, rep.labels, rep.key, rep.note);
+            }
+        }
         if let Some(s) = &rep.skipped {
             *st.skipped.entry(s.clone()).or_insert(0) += 1;
         }
